@@ -85,6 +85,26 @@ func observeLoad(tp *onnx.TensorProto) (obs string) {
 	pos := loadCounter % 3
 	loadCounter++
 	inits = append(inits[:pos], append([]*onnx.TensorProto{tp2}, inits[pos:]...)...)
+	if loadCounter%3 == 1 {
+		// one model in three also carries, BEFORE the judged initializer, a twin with the same element type and
+		// the very same payload but other dims of the same element count (reversed; (1,n) for a vector; (1) for
+		// a scalar): each initializer keeps the shape of its own dims, and the twin is malformed exactly when
+		// the judged one is
+		twin := proto.Clone(tp).(*onnx.TensorProto)
+		twin.Name = "twin"
+		switch len(tp.Dims) {
+		case 0:
+			twin.Dims = []int64{1}
+		case 1:
+			twin.Dims = []int64{1, tp.Dims[0]}
+		default:
+			twin.Dims = make([]int64, len(tp.Dims))
+			for i, d := range tp.Dims {
+				twin.Dims[len(tp.Dims)-1-i] = d
+			}
+		}
+		inits = append([]*onnx.TensorProto{twin}, inits...)
+	}
 	mp := &onnx.ModelProto{
 		IrVersion:   7,
 		OpsetImport: []*onnx.OperatorSetIdProto{{Version: 13}},
@@ -367,7 +387,7 @@ func genC12(dir, tier string, seed int64) {
 	cwA := newCaseWriter(dir, "C12_decode", hdr, opFooter,
 		"onnx.TensorFromProto on generated TensorProtos: 11 element types x {typed field, raw little-endian bytes} x shapes of rank 0..4 (extents 1..3) x element bit patterns (extremes, negatives, NaN payloads incl. signalling, -0, random); payload length perturbed (short by a byte / an element, long by a byte / an element, empty); dims with a zero or negative entry or one entry off; every other data_type code 0..22, 99, negative ones and the int32 extremes with each typed field or raw populated or nothing populated, and codes 0, 16, 99 with every pair of typed fields (equal and different lengths) and all five populated; NaN payloads compared bit for bit", false, 500)
 	cwB := newCaseWriter(dir, "C12_load", hdr, opFooter,
-		"the same protos as one of three initializers (first, middle or last; the others well-formed) of a model whose declared output is that initializer: the model is first built once with gonnx.NewModel(mp), which must leave the proto byte-identical; then NewModelFromBytes(proto.Marshal(mp)) and Run with no inputs; the same model declaring one of the well-formed initializers as its output must load and run exactly when this one does (reported as a panic-class outcome otherwise)", false, 500)
+		"the same protos as one of three initializers (first, middle or last; the others well-formed; one model in three also carries, before it, a twin with the same payload and element type but other dims of the same element count) of a model whose declared output is that initializer: the model is first built once with gonnx.NewModel(mp), which must leave the proto byte-identical; then NewModelFromBytes(proto.Marshal(mp)) and Run with no inputs; the same model declaring one of the well-formed initializers as its output must load and run exactly when this one does (reported as a panic-class outcome otherwise)", false, 500)
 	cwC := newCaseWriter(dir, "C12_constant", hdr, opFooter,
 		"the same protos as the `value` attribute of a Constant node (node name, output name and graph identical in every model) whose result is the declared output: NewModelFromBytes then Run", false, 500)
 	emit := func(tp *onnx.TensorProto, tag string) {
